@@ -91,8 +91,32 @@ class Ctx:
         self.log("gen %s/%s: %d cases, %.1fs" % (module, r.cfg, len(cases), r.wall_s))
         return cases
 
-    def gen_printed(self, module, cfg=None, env=None, workers=1, timeout=3000, prefix="@@", **kw):
-        """Generator that prints one JSON document per line with a prefix (from PrintT)."""
+    def gen_printed(self, module, cfg=None, env=None, workers=1, timeout=3000, prefix="@@", parallel=1, **kw):
+        """Generator that prints one JSON document per line with a prefix (from PrintT).
+        parallel=k runs k single-worker TLC simulations with seeds seed, seed+1, ... (reproducible) and concatenates."""
+        if parallel > 1 and kw.get("simulate"):
+            import re as _re
+            num = int(_re.search(r"num=(\d+)", kw["simulate"]).group(1))
+            per = (num + parallel - 1) // parallel
+            base_seed = kw.get("seed", self.seed)
+            def one(i):
+                k2 = dict(kw, simulate="num=%d" % per, seed=base_seed * 1000 + i)
+                return run_tlc(module, cfg, workers=1, tag=self.tag(module), env=env, timeout=timeout, xmx="2g", **k2)
+            try:
+                with cf.ThreadPoolExecutor(max_workers=parallel) as ex:
+                    rs = list(ex.map(one, range(parallel)))
+            except TlcError as ex2:
+                raise Machinery(str(ex2))
+            cases = []
+            for r in rs:
+                for line in r.stdout.splitlines():
+                    line = line.strip()
+                    if line.startswith('"' + prefix):
+                        cases.append(json.loads(json.loads(line)[len(prefix):]))
+            self.tlc_runs.append({"role": "generate", "module": module, "cfg": rs[0].cfg, "parallel": parallel,
+                                  "cases": len(cases), "wall_s": max(r.wall_s for r in rs)})
+            self.log("gen %s/%s x%d: %d cases, %.1fs" % (module, rs[0].cfg, parallel, len(cases), max(r.wall_s for r in rs)))
+            return cases
         try:
             r = run_tlc(module, cfg, workers=workers, tag=self.tag(module), env=env, timeout=timeout, **kw)
         except TlcError as ex:
